@@ -134,7 +134,7 @@ def env_args(desc, env):
 @register
 class C16(Check):
     pid = "C16"
-    slices = ["der-values", "der-rejects-controls", "control-chain", "der-of-signal-expressions"]
+    slices = ["der-values", "der-of-declared-symbols", "der-rejects-controls", "control-chain", "der-of-signal-expressions"]
 
     def explanation(self):
         return ("theorems: the symbolic derivative evaluates to the forward-mode tangent (eval_der); the tangent is linear in its seed, so "
@@ -167,9 +167,56 @@ class C16(Check):
 
     def correspondence(self):
         self.values_slice()
+        self.bare_symbol_slice()
         self.rejects_slice()
         self.chain_slice()
         self.signal_slice()
+
+    def bare_symbol_slice(self):
+        """der of a declared state (or quadrature state) SYMBOL itself — the whole symbol object, vector valued or not, which rockit
+        treats in a branch of its own — equals the declared right-hand side at the same time, states, controls and parameters"""
+        import casadi as ca
+        name = "der-of-declared-symbols"
+        n = 12 if self.tier == 'quick' else 120
+        for it in range(n):
+            desc = self.gen({'features': {'qstate': 0.5, 'p': 0.7, 'pc': 0.4, 'v': 0.5, 'time': 1.0}})
+            s_ = G.symbols(desc)
+            # every right-hand side depends on time explicitly (a right-hand side evaluated at a wrong time must show)
+            for i in range(len(desc['ode'])):
+                desc['ode'][i] = ('+', desc['ode'][i], ('*', E.C(G.coef(self.rng)), ('*', ('t',), self.rng.choice(s_['x'] + [('t',)]))))
+            b = B.build(desc, transcribe=False, solver=False)
+            offs = []
+            off = 0
+            for sz in desc['states']:
+                offs.append(off)
+                off += sz
+            k = self.rng.randrange(len(b.states))
+            try:
+                with B.quiet():
+                    de = b.ocp.der(b.states[k])
+                    W = Walker(env_function(b, [ca.densify(ca.vec(ca.MX(de)))]))
+            except Exception as ex:
+                self.slice_ok[name] = False
+                self.violation("ocp.der of a declared state symbol raised: %s: %s" % (type(ex).__name__, str(ex)[:200]), {"desc": desc, "state": k}, {"kind": "der-exception"})
+                return
+            for _ in range(2):
+                env = rand_env(self.rng, desc)
+                try:
+                    got = W(env_args(desc, env))[0]
+                    want = [E.evaluate(desc['ode'][offs[k] + r], env) for r in range(desc['states'][k])]
+                except (ZeroDivisionError, OverflowError):
+                    continue
+                self.evaluations += 1
+                self.count("bare-symbol")
+                self.signatures.add("bare-%d-%d" % (it, k))
+                for r in range(len(want)):
+                    gv, mg = got[r]
+                    if not close(want[r], gv, max(mg, 1.0)):
+                        self.slice_ok[name] = False
+                        self.violation("ocp.der(state %d) component %d evaluates to %s, the declared right-hand side %s at the same point is %s"
+                                       % (k, r, float(gv), E.to_tokens(desc['ode'][offs[k] + r]), float(want[r])),
+                                       {"desc": desc, "state": k, "env": sorted(env.items())}, {"kind": "der-bare-symbol"})
+                        return
 
     def signal_slice(self):
         """B-spline signals: der(e) and der(der(e)) of expressions of signals and time, sampled under SplineMethod, against the exact
@@ -1183,6 +1230,61 @@ def apply_tree_edit(mb, edit, pick, rockit):
         s2.method(rockit.MultipleShooting(N=2, M=1, intg='rk'))
 
 
+def dae_shooting_history_slice(chk, name):
+    """histories on a DAE under a shooting method with a CasADi DAE integrator (idas): guesses for the algebraic variable are
+    parameters of the NLP there (the integrator's starting point for z). [set_initial z]; solve; set_initial of some symbol (live);
+    a specification change; transcribe — against the same declarations without the intermediate solve (both real rockit)."""
+    import casadi as ca
+    rockit = B.import_rockit()
+    n = 4 if chk.tier == 'quick' else 40
+    for it in range(n):
+        rng = chk.rng
+        desc = gen_smooth_ode(rng, nx=rng.choice([1, 2]), control=True, dae=True)
+        desc['method'] = {'kind': rng.choice(['ms', 'ss']), 'N': rng.choice([2, 3]), 'M': 1, 'intg': 'idas', 'degree': 2, 'scheme': 'radau', 'grid': {'kind': 'uniform'}}
+        desc['t0'] = ('num', Fr(1, 2))
+        desc['T'] = ('num', Fr(rng.randint(2, 4), 2))
+        zg = rng.randint(2, 9) / 2.0
+        live = rng.choice(['x', 'u', 'z'])
+        lv = rng.randint(-4, 4) / 2.0 or 0.5
+        change = rng.choice(['subject_to', 'add_objective'])
+
+        def declare(with_solve):
+            b = B.build(copy.deepcopy(desc), transcribe=False)
+            o = b.ocp
+            with B.quiet():
+                o.subject_to(o.at_t0(b.states[0]) == 0.5)
+                o.set_initial(b.algs[0], zg)
+                if with_solve:
+                    try:
+                        o.solve_limited()
+                    except Exception:
+                        pass
+                tgt = {'x': b.states[0], 'u': b.controls[0], 'z': b.algs[0]}[live]
+                o.set_initial(tgt, lv)
+                if change == 'subject_to':
+                    o.subject_to(b.states[0] <= 100.0)
+                else:
+                    o.add_objective(o.at_tf(b.states[0]) ** 2)
+            return o
+        try:
+            evolved = declare(True)
+            fresh = declare(False)
+            msg = nlp_compare_ocps(evolved, fresh, rng, "DAE under %s(intg='idas'): 'set_initial(z); solve; set_initial(%s); %s; transcribe' vs the same calls without the solve"
+                                   % (desc['method']['kind'], live, change))
+        except Exception as ex:
+            chk.slice_ok[name] = False
+            chk.violation("DAE-shooting history raised: %s: %s" % (type(ex).__name__, str(ex)[:250].replace("\n", " ")), {"desc": desc},
+                          {"kind": "dae-history-exception"})
+            return
+        chk.evaluations += 1
+        chk.count("dae-shooting-history:%s" % live)
+        chk.signatures.add("dae-history-%d" % it)
+        if msg:
+            chk.slice_ok[name] = False
+            chk.violation(msg, {"desc": desc, "z_guess": zg, "live": live, "change": change}, {"kind": "dae-history", "live": live})
+            return
+
+
 def tree_history_slice(chk, name):
     """solve (or query); ONE change made through a child stage object or by adding a stage; solve — against the same calls made
     before the first transcription (both through the real rockit): the NLP the second solve works on must be the same"""
@@ -1639,7 +1741,7 @@ C18_PROF = {'methods': [('ms', 'rk'), ('ms', 'euler'), ('ss', 'rk'), ('dc', 'rk'
 class C18(Check):
     pid = "C18"
     level = "other"
-    slices = ["roundtrip-single-stage", "roundtrip-multi-stage", "original-undamaged"]
+    slices = ["roundtrip-single-stage", "roundtrip-multi-stage", "original-undamaged", "roundtrip-spline-method"]
     uses_generated = True
 
     def explanation(self):
@@ -1685,6 +1787,51 @@ class C18(Check):
     def correspondence(self):
         self.single_slice()
         self.multi_slice()
+        self.spline_slice()
+
+    def spline_slice(self):
+        """SplineMethod problems (integrator chains, a bspline parameter and variable): the same round trip, every save position"""
+        import casadi as ca
+        rockit = B.import_rockit()
+        name = "roundtrip-spline-method"
+        n = 4 if self.tier == 'quick' else 24
+        for it in range(n):
+            rng = self.rng
+            L = rng.randint(1, 3)
+            N = rng.randint(2, 4)
+            T = rng.choice([1.0, 2.0, 3.0])
+            order = rng.randint(1, 3)
+            pv = [rng.randint(-6, 6) / 4.0 for _ in range(N + order)]
+            geo = rng.random() < 0.5
+            position = self.POSITIONS[it % 4]
+
+            def make():
+                with B.quiet():
+                    ocp = rockit.Ocp(t0=0.5, T=T)
+                    xs = [ocp.state() for _ in range(L)]
+                    u = ocp.control()
+                    for a, b_ in zip(xs, xs[1:] + [u]):
+                        ocp.set_der(a, b_)
+                    sp = ocp.parameter(grid='bspline', order=order)
+                    ocp.set_value(sp, ca.DM([pv]))
+                    sv = ocp.variable(grid='bspline', order=2)
+                    ocp.add_objective(ocp.sum(u ** 2 + (sv - sp) ** 2, include_last=False) + ocp.at_tf(sum(x ** 2 for x in xs)))
+                    ocp.subject_to(ocp.at_t0(xs[0]) == 1)
+                    ocp.subject_to(-3 <= (u <= 3), include_last=False)
+                    ocp.method(rockit.SplineMethod(N=N, grid=rockit.GeometricGrid(2) if geo else rockit.UniformGrid()))
+                    ocp.solver('ipopt', {'ipopt.print_level': 0, 'print_time': False, 'ipopt.max_iter': 0, 'ipopt.sb': 'yes'})
+                return ocp
+            try:
+                msg = self.roundtrip(make, position, "spline")
+            except (ZeroDivisionError, OverflowError):
+                continue
+            self.evaluations += 1
+            self.signatures.add("spline-%d-%s" % (it, position))
+            self.count("spline-position:" + position)
+            if msg:
+                self.slice_ok[name] = False
+                self.violation("SplineMethod: " + msg, {"L": L, "N": N, "T": T, "order": order, "position": position}, {"kind": "roundtrip-spline", "position": position})
+                return
 
     def roundtrip(self, make, position, label):
         """make() -> (ocp, extra_edit or None). → error message | None"""
@@ -1771,6 +1918,8 @@ class C18(Check):
                     st.set_value(p_, val)
             for x_ in list(st.states)[:1]:
                 st.set_initial(x_, ca.DM.ones(x_.numel(), 1) * 0.75)
+            if type(st._method).__name__ == 'SplineMethod':
+                continue    # only the head of an integrator chain carries decision variables there: a guess for a derivative is refused
             for u_ in list(st.controls)[:1]:
                 st.set_initial(u_, ca.DM.ones(u_.numel(), 1) * (-0.5))
 
@@ -1901,6 +2050,8 @@ class C19(Check):
             X = ca.vertcat(*[ca.vec(s) for s in b.states])
             U = ca.vertcat(*[ca.vec(s) for s in b.controls])
             r = [(X, 'control'), (U, 'control-')]
+            if desc['T'][0] == 'free' or desc['t0'][0] == 'free':
+                r += [(o.T, 'value'), (o.t0, 'value')]
             if desc['method']['kind'] == 'dc':
                 r.append((X, 'integrator_roots'))
                 if b.algs:
@@ -1929,7 +2080,11 @@ class C19(Check):
                     args.append(bA.ocp.sample(bA.controls[0], grid='control-')[1])
                 elif kind == 'z':
                     args.append("z")
-            res = [bA.ocp.sample(e, grid=g)[1] for e, g in results_of(bA)]
+                elif kind == 'T':
+                    args.append(bA.ocp.value(bA.ocp.T))
+                elif kind == 't0':
+                    args.append(bA.ocp.value(bA.ocp.t0))
+            res = [bA.ocp.value(e) if g == 'value' else bA.ocp.sample(e, grid=g)[1] for e, g in results_of(bA)]
             f = bA.ocp.to_function('f', args, res)
             outA = f(*[ca.DM(v) for v in argvals])
             if not isinstance(outA, (list, tuple)):
@@ -1947,6 +2102,9 @@ class C19(Check):
                 sol = bB.ocp.non_converged_solution
             outB = []
             for e, g in results_of(bB):
+                if g == 'value':
+                    outB.append([float(sol.value(e))])
+                    continue
                 _, v = sol.sample(e, grid=g)
                 v = np.array(v)
                 # sol.sample returns (time, components): the function returns components x time
@@ -1973,6 +2131,10 @@ class C19(Check):
         elif kind == 'z':
             # the "z" argument is the algebraic value at the N+1 nodes; a constant guess is used on both sides
             o.set_initial(b.algs[0], float(np.array(val).flatten()[0]))
+        elif kind == 'T':
+            o.set_initial(o.T, float(val))
+        elif kind == 't0':
+            o.set_initial(o.t0, float(val))
 
     def argvalue(self, kind, desc):
         import numpy as np
@@ -1981,6 +2143,10 @@ class C19(Check):
         q = lambda: self.rng.randint(-8, 8) / 4.0
         if kind in ('p0', 'p1'):
             return self.rng.randint(1, 8) / 4.0
+        if kind == 'T':
+            return self.rng.randint(3, 12) / 4.0
+        if kind == 't0':
+            return self.rng.randint(-6, 6) / 4.0
         if kind == 'x':
             return [[q() for _ in range(N + 1)] for _ in range(nx)]
         if kind == 'u':
@@ -1999,7 +2165,7 @@ class C19(Check):
         return None
 
     def correspondence(self):
-        n = 12 if self.tier == 'quick' else 120
+        n = 24 if self.tier == 'quick' else 240
         opts0 = {'ipopt.print_level': 0, 'print_time': False, 'ipopt.max_iter': 0, 'ipopt.sb': 'yes'}
         optsC = {'ipopt.print_level': 0, 'print_time': False, 'ipopt.tol': 1e-10, 'ipopt.sb': 'yes'}
         kinds = ['dc_dae', 'ms', 'dc', 'ss']
@@ -2009,7 +2175,17 @@ class C19(Check):
             desc = gen_lq(self.rng, kinds=(kind,))
             pool = ['p0', 'p1', 'u'] + ([] if kind == 'ss' else ['x']) + (['z'] if kind == 'dc_dae' else [])
             mode = ['start', 'unlisted', 'converged'][(it // 4) % 3]
-            argspec = [a for a in pool if a != 'z' and self.rng.random() < 0.75] or ['p0']
+            # free horizons (their guesses as arguments) where the answer does not hinge on the solver: the max_iter=0 modes
+            hz = []
+            if mode != 'converged' and ((it // 4) + it) % 2 == 0:
+                fr = [['T', 't0'], ['t0'], ['T', 't0'], ['T']][(it // 8 + it) % 4]
+                for key in fr:
+                    desc[key] = ('free', Fr(self.rng.randint(2, 6), 2) if key == 'T' else Fr(self.rng.randint(-2, 2), 2))
+                hz = fr
+                pool = pool + hz
+            argspec = [a for a in pool if a != 'z' and (a in hz or self.rng.random() < 0.75)] or ['p0']
+            if hz and mode == 'unlisted':
+                argspec = [a for a in argspec if a != hz[-1]] or ['p0']      # one horizon guess is given beforehand, not as an argument
             self.rng.shuffle(argspec)
             if kind == 'dc_dae':
                 if (it // 4) % 2 == 0:
@@ -2367,7 +2543,7 @@ class C17(Check):
                 # gist times are the Greville points in physical time
                 t = bs_knots(tcv, deg)
                 grev = [sum(t[i + 1:i + deg + 1], Fr(0)) / deg for i in range(ncoef)] if deg > 0 else [(tcv[i] + tcv[i + 1]) / 2 for i in range(N)]
-                if len(tg) == len(grev) and any(not close(a, b_, 1.0 + abs(fl(a))) for a, b_ in zip(grev, tg)):
+                if len(tg) != len(grev) or any(not close(a, b_, 1.0 + abs(fl(a))) for a, b_ in zip(grev, tg)):
                     self.slice_ok["signals-are-splines"] = False
                     self.violation("%s: 'gist' times %s are not the Greville points %s" % (label, [float(v) for v in tg], [float(v) for v in grev]), {"info": info}, feats)
                     return
@@ -2451,63 +2627,97 @@ class C17(Check):
 
     def constraints_slice(self):
         """path constraints under SplineMethod: control-grid constraints are imposed at every refined grid point (exactly the sampled
-        values), grid='inf' constraints bound the B-spline coefficients (which, by convex_upper/lower, bounds the signal at all times)"""
+        values, each constraint with ITS OWN refine), grid='inf' constraints bound the B-spline coefficients (which, by
+        convex_upper/lower, bounds the signal at all times)"""
         import casadi as ca
         rockit = B.import_rockit()
         name = "spline-method-constraints"
-        n = 6 if self.tier == 'quick' else 60
+        n = 8 if self.tier == 'quick' else 80
         for it in range(n):
             rng = self.rng
             L = rng.randint(1, 3)
             N = rng.randint(1, 4)
-            r = rng.randint(1, 3)
             T = rng.choice([1.0, 2.0, 3.0])
             gk = rng.choice(['uniform', 'geometric'])
-            mode = rng.choice(['control', 'inf'])
-            target = rng.randrange(L + 1)      # which chain member (L = the control)
-            lbv, ubv = -rng.randint(1, 4) / 2.0, rng.randint(1, 4) / 2.0
+            # one constraint, or several path constraints with different refinements (stratified: the first cases have two
+            # control-grid constraints, a refined one declared BEFORE an unrefined one and the other way round)
+            ncon = 2 if it < 4 else rng.choice([1, 1, 2, 3])
+            nd = 1 if it < 4 else rng.choice([1, 2, 2, 3])     # vector-valued chains; a constraint may name ONE component
+            cons = []
+            for ci in range(ncon):
+                mode = 'control' if it < 4 else rng.choice(['control', 'control', 'inf'])
+                r = rng.randint(1, 4)
+                if it < 4:
+                    r = [rng.randint(2, 4), 1][ci] if it % 2 == 0 else [1, rng.randint(2, 4)][ci]
+                cons.append({"mode": mode, "refine": r, "target": rng.randrange(L + 1), "comp": rng.choice([None, 0, nd - 1]) if nd > 1 else None,
+                             "lb": -rng.randint(1, 8) / 4.0 - ci, "ub": rng.randint(1, 8) / 4.0 + ci})
             optis = []
             keep = None
             for with_con in (True, False):
+              try:
                 with B.quiet():
                     ocp = rockit.Ocp(t0=0.5, T=T)
-                    xs = [ocp.state() for _ in range(L)]
-                    u = ocp.control()
+                    xs = [ocp.state(nd) for _ in range(L)]
+                    u = ocp.control(nd)
                     for a, b_ in zip(xs, xs[1:] + [u]):
                         ocp.set_der(a, b_)
-                    ocp.add_objective(ocp.sum(u ** 2 + sum(x ** 2 for x in xs), include_last=True) if False else ocp.sum(u ** 2) + ocp.at_tf(sum(x ** 2 for x in xs)))
+                    ocp.add_objective(ocp.sum(ca.sumsqr(u)) + ocp.at_tf(sum(ca.sumsqr(x) for x in xs)))
                     ocp.subject_to(ocp.at_t0(xs[0]) == 1)
-                    e = (xs + [u])[target]
                     if with_con:
-                        if mode == 'control':
-                            ocp.subject_to(lbv <= (e <= ubv), refine=r)
-                        else:
-                            ocp.subject_to(lbv <= (e <= ubv), grid='inf')
+                        for c_ in cons:
+                            e = (xs + [u])[c_["target"]]
+                            if c_["comp"] is not None:
+                                e = e[c_["comp"]]
+                            if c_["mode"] == 'control':
+                                ocp.subject_to(c_["lb"] <= (e <= c_["ub"]), refine=c_["refine"])
+                            else:
+                                ocp.subject_to(c_["lb"] <= (e <= c_["ub"]), grid='inf')
                     ocp.method(rockit.SplineMethod(N=N, grid=rockit.UniformGrid() if gk == 'uniform' else rockit.GeometricGrid(2)))
                     ocp.solver('ipopt', {'ipopt.print_level': 0, 'print_time': False, 'ipopt.max_iter': 0, 'ipopt.sb': 'yes'})
                     ocp._transcribed
                     opti = ocp._method.opti
                     optis.append(opti)
                     if with_con:
-                        keep = (ocp, e)
+                        keep = (ocp, xs + [u])
+              except Exception as ex:
+                self.slice_ok[name] = False
+                self.violation("SplineMethod raised on an integrator-chain problem (dimension %d) with path constraints %s: %s: %s"
+                               % (nd, [(c_["mode"], c_["target"], c_["comp"]) for c_ in cons] if with_con else [], type(ex).__name__, str(ex)[:200].replace("\n", " ")),
+                               {"L": L, "N": N, "T": T, "grid": gk, "dim": nd, "constraints": cons},
+                               {"kind": "spline-constraint-exception", "one_component": any(c_["comp"] is not None for c_ in cons)})
+                return
             oA, oB = optis
             self.evaluations += 1
-            self.count("spline-constraint:%s" % mode)
-            self.signatures.add("splcon-%d-%d-%d-%s-%s-%d" % (L, N, r, gk, mode, target))
-            feats = {"kind": "spline-constraint", "mode": mode}
-            payload = {"L": L, "N": N, "refine": r, "T": T, "grid": gk, "mode": mode, "target": target, "lb": lbv, "ub": ubv}
+            for c_ in cons:
+                self.count("spline-constraint:%s" % c_["mode"])
+            self.count("spline-constraints-per-problem:%d" % ncon)
+            if len(set(c_["refine"] for c_ in cons if c_["mode"] == 'control')) > 1:
+                self.count("spline-constraints-with-different-refine")
+            self.signatures.add("splcon-%d-%d-%s-%r" % (L, N, gk, [(c_["mode"], c_["refine"], c_["target"]) for c_ in cons]))
+            feats = {"kind": "spline-constraint", "modes": sorted(set(c_["mode"] for c_ in cons)), "ncon": ncon}
+            payload = {"L": L, "N": N, "T": T, "grid": gk, "dim": nd, "constraints": cons}
+            if nd > 1:
+                self.count("spline-constraint-vector-chain")
+            if any(c_["comp"] is not None for c_ in cons):
+                self.count("spline-constraint-on-one-component")
             if oA.x.numel() != oB.x.numel():
                 continue
-            ocp, e = keep
+            ocp, members = keep
             with B.quiet():
                 WA = Walker(ca.Function('a', [oA.x, oA.p], [oA.g, oA.lbg, oA.ubg]))
                 WB = Walker(ca.Function('b', [oB.x, oB.p], [oB.g, oB.lbg, oB.ubg]))
-                if mode == 'control':
-                    _, vs = ocp.sample(e, grid='control', refine=r)
-                else:
-                    _, vs = ocp.sample(e, grid='gist')
-                _, fine = ocp.sample(e, grid='control', refine=7)
-                WS = Walker(ca.Function('s', [oA.x, oA.p], [ca.vec(ca.MX(vs)), ca.vec(ca.MX(fine))]))
+                outs = []
+                for c_ in cons:
+                    e = members[c_["target"]]
+                    if c_["comp"] is not None:
+                        e = e[c_["comp"]]
+                    if c_["mode"] == 'control':
+                        _, vs = ocp.sample(e, grid='control', refine=c_["refine"])
+                    else:
+                        _, vs = ocp.sample(e, grid='gist')
+                    _, fine = ocp.sample(e, grid='control', refine=7)
+                    outs += [ca.vec(ca.MX(vs)), ca.vec(ca.MX(fine))]
+                WS = Walker(ca.Function('s', [oA.x, oA.p], outs))
             xv = [rnd(rng) for _ in range(oA.x.numel())]
             pv = [rnd(rng, True) for _ in range(oA.p.numel())]
             gA, lA, uA = WA([xv, pv])
@@ -2524,20 +2734,24 @@ class C17(Check):
             if ptr != len(rowsB):
                 self.count("spline-constraint-skipped(rows-not-a-subsequence)")
                 continue
-            self.count("spline-constraint-compared:%s" % mode)
+            self.count("spline-constraint-compared")
             atoms = sorted(fl(a[0]) for a in B.atoms_of_impl([r_[0] for r_ in extra], [r_[1] for r_ in extra], [r_[2] for r_ in extra]))
-            vals, finev = WS([xv, pv])
-            want = sorted([fl(v[0]) - lbv for v in vals] + [ubv - fl(v[0]) for v in vals])
-            what = "at every refined control-grid point (refine=%d)" % r if mode == 'control' else "on every B-spline coefficient"
+            res = WS([xv, pv])
+            want = []
+            for ci, c_ in enumerate(cons):
+                vals = res[2 * ci]
+                want += [fl(v[0]) - c_["lb"] for v in vals] + [c_["ub"] - fl(v[0]) for v in vals]
+            want.sort()
             if len(atoms) != len(want) or any(abs(a - w) > 1e-9 * max(1.0, abs(a), abs(w)) for a, w in zip(atoms, want)):
                 self.slice_ok[name] = False
-                self.violation("SplineMethod: the rows of a %s constraint are not the constraint %s: %d row atoms vs %d expected, e.g. %s vs %s"
-                               % (mode, what, len(atoms), len(want), atoms[:4], want[:4]), dict(payload, x=xv), feats)
+                self.violation("SplineMethod: the rows of the path constraints %s are not each constraint at every point of its own refined grid "
+                               "(control) / on every B-spline coefficient (inf): %d row atoms vs %d expected, e.g. %s vs %s"
+                               % ([(c_["mode"], "refine=%d" % c_["refine"]) for c_ in cons], len(atoms), len(want), atoms[:4], want[:4]), dict(payload, x=xv), feats)
                 return
-            # sufficiency for all times: no refined sample is closer to a bound than the closest row
-            if atoms:
-                worst = min(min(fl(v[0]) - lbv, ubv - fl(v[0])) for v in finev)
-                if worst < atoms[0] - 1e-9 * (1.0 + abs(atoms[0])) and mode == 'inf':
+            # sufficiency for all times: no refined sample of an 'inf'-constrained signal is closer to a bound than the closest row
+            if atoms and all(c_["mode"] == 'inf' for c_ in cons):
+                worst = min(min(fl(v[0]) - c_["lb"], c_["ub"] - fl(v[0])) for ci, c_ in enumerate(cons) for v in res[2 * ci + 1])
+                if worst < atoms[0] - 1e-9 * (1.0 + abs(atoms[0])):
                     self.slice_ok[name] = False
                     self.violation("SplineMethod grid='inf': the smallest row slack is %s but the signal comes within %s of a bound between grid points" % (atoms[0], worst),
                                    dict(payload, x=xv), feats)
